@@ -50,6 +50,17 @@ def attach(build=False):
     if not build and not is_built():
         # leave the extension unreachable: without ninja quanto warns and falls back to the python kernel
         return False
+    if build and is_built():
+        # already compiled for exactly these sources (the directory name is their hash): no need to go through torch's
+        # load() again, which re-runs ninja (~35 s) and waits on a lock file a killed build may have left behind
+        try:
+            if attach(build=False):
+                return True
+        except Exception:  # noqa: BLE001  (a truncated library from a killed build: compile again)
+            pass
+        import shutil
+
+        shutil.rmtree(d, ignore_errors=True)
     if build:
         # ninja lives next to the interpreter; torch.utils.cpp_extension needs it on PATH (only the explicit build step has it)
         bindir = os.path.dirname(sys.executable)
